@@ -463,6 +463,25 @@ class ActionKinds:
                     ok = r is not None and not accepts_bad
                 if not ok and sink:
                     sink('R4', e, f'`{norm(e)}`: {d}() of a value of kind {a0!r} that is not the text of a numeric token')
+                if ok and d == 'int' and sink and r is not None:
+                    # CPython (>= 3.11) refuses to convert more than 4300 digits: int() of an unbounded digit run raises ValueError unless it is caught here
+                    import re as _re2
+                    unbounded = bool(_re2.search(r'(?<!\\\\)[+*]|\\{\\d+,\\}', r.pattern))
+                    guarded = False
+                    cur = getattr(e, '_parent', None)
+                    while cur is not None and not isinstance(cur, ast.FunctionDef):
+                        par = getattr(cur, '_parent', None)
+                        if isinstance(par, ast.Try) and cur in par.body:
+                            for h in par.handlers:
+                                ts = [] if h.type is None else (h.type.elts if isinstance(h.type, ast.Tuple) else [h.type])
+                                names = {(dotted(t) or '').split('.')[-1] for t in ts}
+                                if (h.type is None or names & {'ValueError', 'Exception'}) and any(
+                                        isinstance(x, ast.Raise) and 'ParsingException' in norm(x) for x in ast.walk(h)):
+                                    guarded = True
+                        cur = par
+                    if unbounded and not guarded:
+                        sink('R4', e, f'`{norm(e)}`: the {tok} token can have any number of digits and int() raises ValueError beyond 4300 digits (CPython limit): '
+                                      f'the conversion must be guarded (ValueError -> ParsingException)')
             return vk(d)
         if d in ('list', 'tuple', 'sorted', 'reversed'):
             a0 = args[0] if args else V()
@@ -480,6 +499,37 @@ class ActionKinds:
             if not (a0.kinds <= {'str'} and a0.known) and sink:
                 sink('R6', e, f'`{norm(e)}`: the path must be a string, got kind {a0!r}')
             return vk('Identifier')
+        if norm(e.func) == 'super().__init__' and '#ctor' in st:
+            kind, owner, vaname, kwname, va, kwx = st['#ctor']
+            lst = self.model.classes.get(kind, [])
+            if len(lst) == 1:
+                mro = self.model.mro(lst[0])
+                names = [c.name for c in mro]
+                nxt = None
+                if owner in names:
+                    for c in mro[names.index(owner) + 1:]:
+                        if '__init__' in c.methods:
+                            nxt = c
+                            break
+                if nxt is not None:
+                    fargs = []
+                    for a_ in e.args:
+                        if isinstance(a_, ast.Starred) and isinstance(a_.value, ast.Name) and a_.value.id == vaname:
+                            fargs.extend(va)
+                        elif isinstance(a_, ast.Starred):
+                            fargs = None
+                            break
+                        else:
+                            fargs.append(ev(a_))
+                    fkw = {}
+                    if fargs is not None:
+                        for k_ in e.keywords:
+                            if k_.arg is None and isinstance(k_.value, ast.Name) and k_.value.id == kwname:
+                                fkw.update(dict(kwx))
+                            elif k_.arg is not None:
+                                fkw[k_.arg] = ev(k_.value)
+                        self.call_function(nxt.methods['__init__'], nxt.file, fargs, fkw, e, sink, self_kind=kind, init_owner=nxt.name)
+            return vk('None')
         if d in self.module_funcs:
             file, fn = self.module_funcs[d]
             # a helper that is handed the production slice itself sees the names of THIS production
@@ -671,7 +721,7 @@ class ActionKinds:
         pvar = fn.args.args[1].arg
         return self.run_body(fn, {}, prod, pvar, sink)
 
-    def call_function(self, fn, file, args, kw, e, sink, self_kind=None, pctx=None):
+    def call_function(self, fn, file, args, kw, e, sink, self_kind=None, pctx=None, init_owner=None):
         """abstract call of a repository function / constructor with the given argument values (depth-limited)"""
         if self._depth >= 3:
             return vk(UNK)
@@ -697,6 +747,11 @@ class ActionKinds:
             st[a.vararg.arg] = V(['tuple'], vk(UNK))
         if a.kwarg:
             st[a.kwarg.arg] = V(['dict'], vk(UNK), None)
+        if self_kind is not None:
+            # what a constructor hands on with super().__init__(*args, **kwargs)
+            named = set(params) | {x.arg for x in a.kwonlyargs}
+            st['#ctor'] = (self_kind, init_owner or self_kind, a.vararg.arg if a.vararg else None, a.kwarg.arg if a.kwarg else None,
+                           tuple(args[len(params):]), tuple(sorted(((k, v) for k, v in kw.items() if k is not None and k not in named), key=lambda kv: kv[0])))
         key = (id(fn), repr(sorted((k, repr(v)) for k, v in st.items())), None if pctx is None else (pctx[0].number, pctx[1]))
         if key in self._summaries:
             val, finds = self._summaries[key]
@@ -784,6 +839,9 @@ class ActionKinds:
                 elif k == '#keys':
                     ka, kb = a.get(k, {}), b.get(k, {})
                     out[k] = {x: set(ka[x]) & set(kb[x]) for x in ka if x in kb}
+                elif k == '#ctor':
+                    if a.get(k) == b.get(k):
+                        out[k] = a.get(k)
                 elif k == '#const':
                     ca, cb = a.get(k, {}), b.get(k, {})
                     out[k] = {x: ca[x] for x in ca if x in cb and ca[x] == cb[x]}
@@ -869,8 +927,27 @@ class ActionKinds:
             self.passes = i + 1
             self._star_done = None
             if not changed:
-                return
-        raise AnalysisError('semantic-value kind analysis did not converge')
+                break
+        else:
+            raise AnalysisError('semantic-value kind analysis did not converge')
+        # narrowing: the ascending iteration keeps what early passes guessed while other values were still unknown (e.g. `x[0]` of a list whose element
+        # kind was not known yet).  Recomputing every value from the converged environment gives a smaller post-fixpoint; repeat while it shrinks.
+        for _ in range(6):
+            new_nt = {}
+            for p in prods:
+                if p.from_star and p.rhs != prods[0].rhs and getattr(self, '_star_done', None) == p.func:
+                    v = self._star_val
+                else:
+                    v = self.run(p)
+                    if p.from_star:
+                        self._star_done, self._star_val = p.func, v
+                new_nt[p.name] = join(new_nt.get(p.name), v)
+            self._star_done = None
+            for k, v in self.nt.items():
+                new_nt.setdefault(k, v)
+            if new_nt == self.nt:
+                break
+            self.nt = new_nt
 
 
 _ak_cache = {}
